@@ -130,3 +130,47 @@ fn digest_sep() {
     kani::cover!(!same, "different");
 }
 star_stubs! { #[kani::unwind(5)] fn c04_digest_sep() { digest_sep() } }
+
+/// payload framing of a report: `len|measurement` followed by `len|aux` iff associated data
+/// is present; parsing it back yields exactly the measurement and the associated data, and
+/// distinguishes absent from empty associated data
+fn framing(ml: usize, al: usize, has_aux: bool) {
+    let m: [u8; 4] = kani::any();
+    let a: [u8; 4] = kani::any();
+    let mut data: Vec<u8> = Vec::new();
+    sta_rs::store_bytes(&m[..ml], &mut data);
+    if has_aux {
+        sta_rs::store_bytes(&a[..al], &mut data);
+    }
+    let got_m = sta_rs::load_bytes(&data);
+    assert!(got_m.is_some() && got_m.unwrap().len() == ml);
+    let mut i = 0;
+    while i < ml {
+        assert!(got_m.unwrap()[i] == m[i], "measurement parses back");
+        i += 1;
+    }
+    let rest = &data[4 + ml..];
+    if has_aux {
+        let got_a = sta_rs::load_bytes(rest);
+        assert!(got_a.is_some() && got_a.unwrap().len() == al, "associated data (also empty) parses back");
+        let mut i = 0;
+        while i < al {
+            assert!(got_a.unwrap()[i] == a[i]);
+            i += 1;
+        }
+        assert!(rest.len() == 4 + al, "nothing else follows");
+    } else {
+        assert!(rest.is_empty() && sta_rs::load_bytes(rest).is_none(), "absence of associated data is distinguishable from empty data");
+    }
+    kani::cover!(true, "reached");
+    core::mem::forget(data);
+}
+#[kani::proof]
+#[kani::unwind(5)]
+fn c01_framing_3_2() { framing(3, 2, true) }
+#[kani::proof]
+#[kani::unwind(5)]
+fn c01_framing_0_0() { framing(0, 0, true) }
+#[kani::proof]
+#[kani::unwind(5)]
+fn c01_framing_3_none() { framing(3, 0, false) }
